@@ -218,3 +218,24 @@ Theorem C07_trapezoid_rejects_x_and_dx : forall (y x : list R) (d : R), trapezoi
 Proof. exact trapezoid_reject_both. Qed.
 Theorem C07_trapezoid_rejects_empty : forall dx : option R, trapezoid RO [] None dx = None.
 Proof. exact trapezoid_reject_empty. Qed.
+
+(** ** Tie A: the model IS the source ([trapz], [quad5], sampled [trapezoid]).  [Generated/quad_loops.v] is regenerated
+    on every run from src/integrate/{functions,samples}.rs by the statement-level translator (tools/rsexpr.py, target
+    tools/tiea/quad_loops.py): iterator chains and loops are folds over lists, [usize] lives in [Z], a panic (failed
+    assert, out-of-bounds index, capacity overflow of an allocation) is [None].  For every carrier, operations record,
+    integrand and input the generated function and the function of Model/Quad.v agree.  [romberg] (Matrix tableau) is
+    outside the translator's subset: the target checks on every run that it is still refused. *)
+Close Scope R_scope.
+From Compute Require Import Base.RsExpr Generated.quad_loops Proofs.TieA_quad_loops.
+Theorem C07_model_is_source_trapz :
+  forall (T : Type) (O : Ops T) (f : T -> T) (a b : T) (n : nat), src_trapz O f a b (Z.of_nat n) = trapz O f a b n.
+Proof. exact @tiea_trapz. Qed.
+(** the five checked reads of the node and weight tables are in bounds: the source never panics *)
+Theorem C07_model_is_source_quad5 :
+  forall (T : Type) (O : Ops T) (f : T -> T) (a b : T), src_quad5 O f a b = Some (quad5 O f a b).
+Proof. exact @tiea_quad5. Qed.
+(** [y] fits the address space: [Vector::ones(y.len() - 1)] then passes the allocation's capacity check (2^60 f64s) *)
+Theorem C07_model_is_source_trapezoid :
+  forall (T : Type) (O : Ops T) (y : list T) (x : option (list T)) (dx : option T),
+    (Z.of_nat (length y) <= 1152921504606846976)%Z -> src_trapezoid O y x dx = trapezoid O y x dx.
+Proof. exact @tiea_trapezoid. Qed.
